@@ -29,7 +29,7 @@ from typing import Any
 
 from hv.clock import patched_time
 from hv.loop import VClock, run_virtual
-from hv.gen import argnames
+from hv.gen import argnames, stacking
 from hv.record import Recorder
 
 ID = "C12"
@@ -371,6 +371,7 @@ def argname_wrappers() -> dict[str, tuple[Any, bool, bool]]:
 def run(R: Recorder, tier: str, seed: int, shard: int, nshards: int) -> None:
     if shard == 0:
         argnames.check(R, "arguments", argname_wrappers())
+        stacking.check_cache(R, "required-hit")
     R.flags["exhaustive_core"] = f"all histories up to length {EXH_LEN[tier]} over 3 keys + 2 advances x 4 flavours x limits 1-3 x expirations (none, 1, 2.5)"
     for i, case in enumerate(exhaustive(tier)):
         if i % nshards == shard:
@@ -389,5 +390,8 @@ def run(R: Recorder, tier: str, seed: int, shard: int, nshards: int) -> None:
 def replay(R: Recorder, case: dict[str, Any]) -> None:
     if "argnames" in case:
         argnames.check(R, "arguments", argname_wrappers(), only=case["argnames"])
+        return
+    if "stacking" in case:
+        stacking.check_cache(R, "required-hit", only=case["stacking"])
         return
     run_history(R, case, verbose=True)
